@@ -66,6 +66,40 @@ type call struct {
 	seenOne sync.Once
 	retCh   chan struct{}
 	toks    []string // tokens of replies produced for this call (guarded by batch.mu)
+	wmu     sync.Mutex
+	wires   []uint16 // wire IDs under which the adversary saw this call's query
+}
+
+// strayIDs: token of a stray reply -> the wire ID it was sent with.
+var strayIDs sync.Map
+
+func (cl *call) sawWire(id uint16) {
+	cl.wmu.Lock()
+	cl.wires = append(cl.wires, id)
+	cl.wmu.Unlock()
+}
+
+func (cl *call) usedWire(id uint16) bool {
+	cl.wmu.Lock()
+	defer cl.wmu.Unlock()
+	for _, w := range cl.wires {
+		if w == id {
+			return true
+		}
+	}
+	return false
+}
+
+// strayCollided: the adversary picks stray IDs that match no query it knows to be outstanding;
+// a transport is free to hand out wire IDs in any order, so the pick can still coincide with
+// the ID of a query that was just being sent. A "stray" whose ID equals a wire ID of the very
+// call that received it did match an outstanding query: not a finding.
+func strayCollided(cl *call, token string) bool {
+	if v, ok := strayIDs.Load(token); ok && cl.usedWire(v.(uint16)) {
+		rep.Count("stray_id_coincided_with_the_receiving_calls_own_wire_id(not judged)", 1)
+		return true
+	}
+	return false
 }
 
 type pq struct {
@@ -159,6 +193,7 @@ func (a *connAdv) onWrite(c *fakenet.Conn, data []byte) error {
 		a.tr[qi.Seq]++
 		a.idx++
 		p := &pq{wireID: qi.WireID, seq: qi.Seq, sendIdx: a.idx, trans: a.tr[qi.Seq], qsect: qi.QSect, cl: cl}
+		cl.sawWire(qi.WireID)
 		a.lastWire = qi.WireID
 		if a.since.IsZero() {
 			a.since = time.Now()
@@ -278,12 +313,26 @@ func (a *connAdv) inject(msg []byte) {
 
 func (a *connAdv) strayLocked(p *pq) {
 	a.strayN++
-	// an ID at least 0x4000 away from the newest wire ID on this connection:
-	// not outstanding (IDs are handed out sequentially).
+	// an ID far from the newest wire ID on this connection and not the ID of any
+	// query known to be unanswered here
 	id := a.lastWire + 0x4000 + uint16(a.b.rnd(0x4000))
+	for try := 0; try < 64; try++ {
+		busy := false
+		for _, q := range a.pend {
+			busy = busy || q.wireID == id
+		}
+		for _, q := range a.late {
+			busy = busy || q.wireID == id
+		}
+		if !busy {
+			break
+		}
+		id += 0x0101
+	}
 	name := fmt.Sprintf("stray%d-c%d.c01.test.", a.strayN, a.c.ID)
 	qs := append(wire.EncodeName(name), 0, 16, 0, 1)
 	tok := fmt.Sprintf("stray/c%d/%d", a.c.ID, a.strayN)
+	strayIDs.Store(tok, id)
 	msg := dnsadv.Reply(id, 0x8180, qs, tok, a.b.rnd(64), byte(a.strayN))
 	a.b.mu.Lock()
 	a.b.reps[tok] = msg
@@ -385,6 +434,9 @@ func (b *batch) check(cl *call, r *[]byte) {
 		return
 	}
 	if strings.HasPrefix(ri.Token, "stray/") {
+		if strayCollided(cl, ri.Token) {
+			return
+		}
 		rep.Violation("stray-delivered-"+tname, "a reply whose wire ID matched no outstanding query was delivered to a caller (token "+ri.Token+")", wit(nil))
 		return
 	}
